@@ -90,6 +90,13 @@ VSet(via, v) ==
     /\ lastAct' = [k |-> "set", via |-> via, v |-> v, mod |-> TRUE, cur |-> v]
     /\ UNCHANGED <<syncq, fifo, content, evq, syncqs, nextSel, syncIdx>>
 
+\* a command whose body does not decode as the lane's type (Decode fails with BadCommand / IncompleteCommand before the
+\* lane is touched): nothing changes, nothing is reported as modified
+VBadCmd ==
+    /\ Kind = "value" /\ "cmd" \in Vias
+    /\ lastAct' = [k |-> "badcmd", what |-> "val", fail |-> TRUE, cur |-> val]
+    /\ UNCHANGED <<val, dirty, syncq, fifo, content, evq, syncqs, nextSel, syncIdx, p>>
+
 \* ValueLane::sync: sync_queue.push_back(id)   (the handler reports Modification::no_trigger)
 VSync(r) ==
     /\ Kind = "value" /\ Len(syncq) < MaxSyncQ
@@ -129,6 +136,11 @@ CCommand(via, v) ==
     /\ p' = G(LPSet(p, v, TRUE))
     /\ lastAct' = [k |-> "command", via |-> via, v |-> v, mod |-> TRUE]
     /\ UNCHANGED <<syncq, fifo, content, evq, syncqs, nextSel, syncIdx>>
+
+CBadCmd ==
+    /\ Kind = "command" /\ "cmd" \in Vias
+    /\ lastAct' = [k |-> "badcmd", what |-> "val", fail |-> TRUE]
+    /\ UNCHANGED <<val, dirty, syncq, fifo, content, evq, syncqs, nextSel, syncIdx, p>>
 
 CWrite ==
     /\ Kind = "command"
@@ -252,6 +264,12 @@ MClear(via) ==
     /\ lastAct' = [k |-> "clr", via |-> via, mod |-> TRUE, cur |-> [c \in Keys |-> 0]]
     /\ UNCHANGED <<val, dirty, syncq, fifo, syncqs, nextSel, syncIdx>>
 
+\* an update / remove command whose key or value text does not decode (DecodeMapMessage fails before MapLaneUpdate runs)
+MBadCmd(what) ==
+    /\ Kind = "map" /\ "cmd" \in Vias
+    /\ lastAct' = [k |-> "badcmd", what |-> what, fail |-> TRUE, cur |-> CurMap]
+    /\ UNCHANGED <<val, dirty, syncq, fifo, content, evq, syncqs, nextSel, syncIdx, p>>
+
 \* MapStoreInner::transform_entry(key, f) with f = (_ => to), to = 0 meaning None.
 \* via: "h" (HandlerContext::transform_entry: Modification unless NoChange) | "direct" (MapLane::transform_entry)
 MTransform(via, c, to) ==
@@ -369,9 +387,11 @@ MDrop(n) == MTakeDrop("drop", n)
 
 Next ==
     \/ \E v \in Vals : VSetCmd(v) \/ VSetHandler(v) \/ VReplace(v)
+    \/ VBadCmd
     \/ \E r \in Remotes : VSync(r)
     \/ VWrite
     \/ \E v \in Vals : CCommandCmd(v) \/ CCommandHandler(v)
+    \/ CBadCmd
     \/ CWrite
     \/ \E v \in Vals : SPush(v)
     \/ \E r \in Remotes : SSync(r)
@@ -382,6 +402,7 @@ Next ==
     \/ \E c \in Keys, v \in Vals : MUpdateCmd(c, v) \/ MUpdateHandler(c, v)
     \/ \E c \in Keys : MRemoveCmd(c) \/ MRemoveHandler(c)
     \/ MClearCmd \/ MClearHandler
+    \/ \E w \in {"key", "val", "remkey"} : MBadCmd(w)
     \/ \E c \in Keys, to \in 0..NV : MTransformHandler(c, to) \/ MTransformDirect(c, to)
     \/ \E n \in 0..(NK + 1) : MTake(n) \/ MDrop(n)
     \/ \E r \in Remotes : MSync(r)
